@@ -33,13 +33,15 @@ pub fn check(tier: Tier) -> Check {
             parts.push(Part::new("C13/causes", json!({"depth": d - 2, "flavour": 2}), 0, tier.pick(40, 600)));
         }
     }
+    // a Maximum Packet Size in force: some requests (among them a long DISCONNECT) are refused
+    parts.push(Part::new("C13/causes", json!({"depth": tier.pick(4, 5), "m": 14}), tier.pick(0, 1), tier.pick(40, 600)));
     // persistent back-pressure on the write half: causes arriving while a packet is half written
     parts.push(Part::new("C13/causes", json!({"depth": tier.pick(4, 5), "wb": true}), 1, tier.pick(40, 600)));
     Check {
         also_rel: false,
         property: "C13",
         level: "model_checking",
-        rule: "connect()/authorize(): CONNACK with each of the 22 reasons x property sets, AUTH challenge and continuation, end-of-stream at every byte offset of the CONNACK, read and write errors; run(): every terminating cause (user DISCONNECT, server DISCONNECT, EOF, read error, write error, last handle dropped, undecodable packet) injected at every point of every bounded history of operations (idle, operations outstanding, streams open, mid-QoS 2), followed by further operations; flat sweeps over all 29 DISCONNECT reasons x property sets; non-trivial = run()/connect() returned".into(),
+        rule: "connect()/authorize(): CONNACK with each of the 22 reasons x property sets, AUTH challenge and continuation, end-of-stream at every byte offset of the CONNACK, read and write errors; run(): every terminating cause (user DISCONNECT, server DISCONNECT, EOF, read error, write error, last handle dropped, undecodable packet) injected at every point of every bounded history of operations (idle, operations outstanding, streams open, mid-QoS 2), followed by further operations; flat sweeps over all 29 DISCONNECT reasons x property sets (the user's DISCONNECT also under a Maximum Packet Size that refuses it: run() must then keep serving); non-trivial = run()/connect() returned".into(),
         assumptions: vec![
             "which error is returned for undecodable input is unconstrained".into(),
             "the context task drops the Context right after run() returned".into(),
@@ -247,7 +249,10 @@ fn user_disconnect(name: String, params: Value) -> Scenario {
     Box::new(move |chz, ex| {
         let mut sys = Sys::new("C13", &name, chz);
         sys.params = params.clone();
-        sys.bring_up(vec![]);
+        // a Maximum Packet Size may refuse the DISCONNECT (and the requests around it): a refused
+        // DISCONNECT was not written, so it is no reason for run() to return
+        let m = [None, Some(8u32), Some(12)][chz.choose(3)];
+        sys.bring_up(m.map(|m| vec![Prop::u32(P_MAXIMUM_PACKET_SIZE, m)]).unwrap_or_default());
         let reason = DISCONNECT_REASONS[chz.choose(DISCONNECT_REASONS.len())];
         let spec = DisconnectSpec {
             reason: Some(reason),
@@ -283,7 +288,11 @@ pub fn scenario(name: &str, params: &Value) -> Scenario {
         let mut sys = Sys::new("C13", &name, chz);
         sys.params = params.clone();
         sys.m.check_client_acks = true;
-        sys.bring_up_fl(vec![], params["flavour"].as_u64().unwrap_or(0));
+        let mps = params["m"].as_u64();
+        sys.bring_up_fl(
+            mps.map(|m| vec![Prop::u32(P_MAXIMUM_PACKET_SIZE, m as u32)]).unwrap_or_default(),
+            params["flavour"].as_u64().unwrap_or(0),
+        );
         let specs = std_ops();
         // a held context task lets requests queue up before a cause strikes
         let devs = |s: &Sys| sched_deviations(s, true, true);
@@ -312,6 +321,14 @@ pub fn scenario(name: &str, params: &Value) -> Scenario {
                     }
                     e.push(Ev::Start(OpSpec::Disconnect(DisconnectSpec {
                         reason: Some(r),
+                        ..Default::default()
+                    })));
+                }
+                if mps.is_some() && s.m.master_alive {
+                    // larger than the Maximum Packet Size of this part: refused, not a cause
+                    e.push(Ev::Start(OpSpec::Disconnect(DisconnectSpec {
+                        reason: Some(0x04),
+                        reason_string: Some("a reason string that does not fit".into()),
                         ..Default::default()
                     })));
                 }
